@@ -1,5 +1,6 @@
 import GoMailModel.Eml.Params
 import GoMailModel.Generated.Eml
+import GoMailModel.Generated.Narrow
 /-
   C09 — EML parsing is total. The part of eml.go that indexes and slices by hand is modelled with
   Go's slice semantics (out of range = panic); the rest of the parser only consumes what net/mail,
@@ -60,5 +61,14 @@ def accountedFor : List (String × String × List String) := [
     ["ok", "len(name) >= 2 && name[0] == '\"' && name[len(name)-1] == '\"'"])]
 
 theorem indexing_accounted_for : ∀ e ∈ Generated.emlIndexing, e ∈ accountedFor := by decide
+
+
+/-- Fact regenerated from the sources: the only integers narrower than `int` in the library are the nesting
+    depth of the multipart writer (at most four layers) and the step counter of LOGIN (at most two steps). No
+    count of parts, recipients, refusals, header fields, parameters or bytes is kept in a type that wraps at 128,
+    256 or 65536 - the theorems of this file quantify over all sizes, and this is the part of the tie that says the
+    code does not silently stop doing so. -/
+theorem no_narrow_counters :
+    Generated.narrowInts = ["msgwriter.go: int8", "smtp/auth_login.go: uint8"] := by decide
 
 end GoMail.Props.C09
